@@ -95,6 +95,42 @@ def field_rules(scratch, tier, binary, side, out):
     return r, len(progs)
 
 
+def float_text(scratch, tier, binary, out):
+    """Numbers of specs/FloatText.tla (shortest digit strings x decimal exponents) with the text encoding/json must print."""
+    cfg = "FloatText_gen.cfg" if tier == "quick" else "FloatText_gen_thorough.cfg"
+    r = vlib.run_tlc(scratch, "FloatText", cfg, workers=4, timeout=1500)
+    vlib.require_tlc_ok(r, cfg)
+    cases = r.prints.get("FLOAT") or []
+    if len(cases) < 1000:
+        raise vlib.Infra("FloatText produced only %d numbers" % len(cases))
+    cases.sort(key=lambda c: (len(c["digits"]), c["digits"], c["x"]))
+    fp = os.path.join(scratch.path, "floattext.ndjson")
+    with open(fp, "w") as f:
+        for c in cases:
+            f.write(json.dumps(c) + "\n")
+    job = dict(prop="C01", tier=tier, seed=vlib.seed(), params=dict(cases=fp))
+    o = vlib.run_workers(scratch, binary, "ft", job, case_timeout=60, total_timeout=1500)
+    for sig, st in o.sigs.items():
+        cur = out.sigs.setdefault(sig, dict(count=0, counted=True, examples=[], details=[], fine={}))
+        cur["count"] += st["count"]
+        for fs, n in (st.get("fine") or {}).items():
+            cur["fine"][fs] = cur["fine"].get(fs, 0) + n
+        cur["examples"] += st["examples"][:2]
+        cur["details"] += st["details"][:2]
+    out.evaluations += o.evaluations
+    out.nontrivial += o.nontrivial
+    out.counters["calls"] = out.counters.get("calls", 0) + o.counters.get("calls", 0)
+    out.crashes += o.crashes
+    out.infra += o.infra
+    return r, len(cases)
+
+
+FT_ASSUME = ("specs/FloatText.tla: the text of a finite float as a function of its shortest decimal digits and exponent (plain layout for "
+             "-6 <= X < 21, exponent layout otherwise, two exponent digits except below 1e-6 ... 1e-9); TLC exports every number of up to "
+             "2/3 digits x exponents -12..24 / -45..39 with its text; the harness parses it, confirms it is the shortest representation, "
+             "encodes it as float64 / float32 / pointer / omitempty / ,string / named / interface / map member and decodes it back")
+
+
 FR_ASSUME = ("specs/FieldRules.tla: which struct fields are members of the JSON object (breadth-first promotion through embedded structs by "
              "value and by pointer, tag renaming, hidden fields, shallowest-wins, exactly-one-tagged-wins, otherwise dropped); TLC checks "
              "NamesUnique, DirectWins, HiddenStayHidden for every program of three struct types within the bounds and exports program + "
@@ -114,6 +150,8 @@ def describe(sig, st):
         return "encoding is memory-unsafe (crash, panic or garbage depending on stale memory) for the type family %s; the family is excluded from the differential comparison" % p[1]
     if p[0] == "crash":
         return "the process dies (%s) while encoding %s" % (p[1], "|".join(p[2:]))
+    if p[0] == "float":
+        return "a float %s differently from encoding/json (%s, %s layout)" % ("is printed" if p[1] == "encode" else "text is decoded", p[2], p[3] if len(p) > 3 else "")
     if p[0] == "fields":
         return "the members of a struct's JSON object differ from Go's field rules (%s: %s) for programs with %s" % (p[1], p[2].replace("-", " "), p[3] if len(p) > 3 else "?")
     return "Marshal %s for the minimal type [%s] with %s values" % (
@@ -161,6 +199,9 @@ def run_typed(prop, check, tier, scratch, record, level, rule, assume, describe_
     if check == "C01":
         fres, nfr = field_rules(scratch, tier, binary, "encode", out)
         tl.append(fres)
+        ftres, nft = float_text(scratch, tier, binary, out)
+        tl.append(ftres)
+        nfr += nft
     prec = dict(params)
     prec["types"] = "<emitted by TLC at run time>"
     if with_table:
@@ -168,7 +209,8 @@ def run_typed(prop, check, tier, scratch, record, level, rule, assume, describe_
     cov = dict(rule=rule % dict(ntypes=ntypes, nmodes=4 + params["rand_modes"] + len(params.get("modes") or [])),
                exhaustive=True, traces_validated_against_impl=ntypes + nfr)
     if nfr:
-        cov["rule"] += "; plus %d field-rule programs emitted by TLC from FieldRules.tla (filled and nil-pointer values)" % nfr
+        cov["rule"] += ("; plus %d field-rule programs (FieldRules.tla; filled and nil-pointer values) and float texts (FloatText.tla; both "
+                        "signs, 5 positions, decoded back)" % nfr)
     f = vlib.Findings(prop)
     return vlib.conclude(prop, tier, level, t0, out, f, RUNNER, prec, cov, assume, record=record,
                          tlc_results=tl, describe=describe_fn)
@@ -179,7 +221,7 @@ def run(tier, scratch, record=False):
                      "%(ntypes)d type constructions emitted by TLC x %(nmodes)d value modes x 7 variants (Marshal / MarshalIndent / Encoder "
                      "without HTML escaping; value reached directly, behind a pointer, inside interface{}); non-trivial = distinct "
                      "(type, mode) pairs; the two memory-unsafe type families are excluded and represented by isolated witnesses",
-                     ASSUME + [FR_ASSUME], describe, with_witnesses=True)
+                     ASSUME + [FR_ASSUME, FT_ASSUME], describe, with_witnesses=True)
 
 
 def typed_replay(scratch, rp, check, with_table=False):
@@ -196,4 +238,8 @@ def replay(scratch, rp):
         binary, job = vlib.generic_replay(scratch, rp, "fr")
         job["params"] = dict(cases="/dev/null")
         return vlib.finish_replay(rp["property"], binary, "fr", job, scratch)
+    if "digits" in (rp.get("case") or {}):
+        binary, job = vlib.generic_replay(scratch, rp, "ft")
+        job["params"] = dict(cases="/dev/null")
+        return vlib.finish_replay(rp["property"], binary, "ft", job, scratch)
     return typed_replay(scratch, rp, "C01")
